@@ -6,6 +6,6 @@ set -u
 cd /verif
 git -C /repo diff --quiet || { echo "/repo is dirty"; exit 2; }
 git -C /repo apply "$1" || { echo "patch does not apply"; exit 2; }
-cp -r evidence work/evidence.keep
+rm -rf work/evidence.keep; cp -r evidence work/evidence.keep
 trap 'git -C /repo checkout -- . ; git -C /repo clean -fdq -- . 2>/dev/null; rm -rf /verif/evidence; mv /verif/work/evidence.keep /verif/evidence' EXIT
 ./scripts/run_all.sh
